@@ -34,7 +34,7 @@ from tqv.props.c04 import (
 # caller-owned arrays handed to the library must come back unchanged (see tqv/purity.py)
 from tqv.purity import install as _install_purity  # noqa: E402
 
-_install_purity('toqito.channel_ops')
+_install_purity('toqito.channel_ops', twice=True)
 
 PROPERTY = "C05"
 RULE = (
